@@ -1,6 +1,8 @@
 import AFDriver.Wire
 import AFModel.FloatOps
 import AFModel.Combined
+import AFModel.CombinedOps
+import AFModel.Generated.C15
 
 open Lean (Json)
 open AF AF.Wire AF.Combined
@@ -17,6 +19,25 @@ partial def parseExpr (j : Json) : Except String (Expr Nat) := do
     if arr.size != 2 then throw "bad add"
     pure (.add (← parseExpr arr[0]!) (← parseExpr arr[1]!))
 
+def parseFreeArg (j : Json) : Except String FreeArg := do
+  match j.getObjVal? "prior" with
+  | .ok p => pure (.prior (← p.getNat?))
+  | .error _ => pure (.part (← (← (← j.getObjVal? "part").getArr?).toList.mapM (·.getStr?)))
+
+/-- `{"leaf": k}` | `{"add": [l, r]}` | `{"free": [args], "of": e}` -/
+partial def parseFExpr (j : Json) : Except String (FExpr Nat FreeArg) := do
+  match j.getObjVal? "leaf" with
+  | .ok l => pure (.leaf (← l.getNat?))
+  | .error _ =>
+    match j.getObjVal? "free" with
+    | .ok fj =>
+      let args ← (← fj.getArr?).toList.mapM parseFreeArg
+      pure (.free args (← parseFExpr (← j.getObjVal? "of")))
+    | .error _ =>
+      let arr ← getArr j "add"
+      if arr.size != 2 then throw "bad add"
+      pure (.add (← parseFExpr arr[0]!) (← parseFExpr arr[1]!))
+
 def parsePath (j : Json) : Except String Path := do
   (← j.getArr?).toList.mapM (·.getStr?)
 
@@ -29,11 +50,6 @@ def parseAnalysis (j : Json) : Except String (Analysis Float) := do
     name := (← getNat j "name"), watch := (← parsePath (← j.getObjVal? "watch")),
     w := (← getFloat j "w"), c := (← getFloat j "c"),
     bad := (← vecOfJson (← j.getObjVal? "bad")), own := own }
-
-def parseFreeArg (j : Json) : Except String FreeArg := do
-  match j.getObjVal? "prior" with
-  | .ok p => pure (.prior (← p.getNat?))
-  | .error _ => pure (.part (← parsePath (← j.getObjVal? "part")))
 
 def parseEv (j : Json) : Except String Ev := do
   let i ← j.getInt?
@@ -59,26 +75,81 @@ def floatEq (a b : Float) : Bool := a == b
 
 end C15
 
+namespace C15
+
+def jsonOfRoute : Route → Json
+  | .eachChild cp p z => Json.mkObj [("each", Json.arr #[Json.bool cp, Json.bool p, Json.bool z])]
+  | .firstChild => Json.str "firstChild"
+  | .inherited => Json.str "inherited"
+  | .other => Json.str "other"
+
+def jsonOfOptNat : Option Nat → Json
+  | some k => jsonOfNat k
+  | none => Json.null
+
+/-- request kind `hooks`: for every row of the generated table the calls a serial call of the hook
+on a combined analysis of `n` analyses makes (`m` items in the zipped argument) -/
+def handleHooks (j : Json) : Except String Json := do
+  let n ← getNat j "n"
+  let m ← getNat j "m"
+  pure (Json.mkObj [("hooks", Json.arr (Generated.hooks.map (fun h => Json.mkObj [
+    ("name", Json.str h.name), ("takes_paths", Json.bool h.takesPaths), ("shared", Json.bool h.shared),
+    ("output", Json.bool h.isOutput), ("route", jsonOfRoute h.route),
+    ("calls", Json.arr ((hookCalls h.route n m).map (fun c =>
+      Json.arr #[jsonOfNat c.child, jsonOfOptNat c.folder, jsonOfOptNat c.arg])).toArray)])).toArray)])
+
+end C15
+
 open C15 in
 def handleC15 (j : Json) : Except String Json := do
+  if (j.getObjValAs? String "kind").toOption == some "hooks" then return (← handleHooks j)
   let cfgj ← j.getObjVal? "cfg"
   let cfg : Cfg := {
     drainOnError := (← getBool cfgj "drain"), mapIndexesAnalyses := (← getBool cfgj "map_idx"),
     newSeesThroughIndex := (← getBool cfgj "new_idx") }
-  let e ← parseExpr (← j.getObjVal? "expr")
   let table ← (← getArr j "analyses").toList.mapM parseAnalysis
   let t := (← parseNode (← j.getObjVal? "comp")).node
+  -- `with_free_parameters` at any position (`fexpr`) or as the outermost operation (`expr` + `free`)
+  let fx : Option (FExpr Nat FreeArg) ← match j.getObjVal? "fexpr" with
+    | .ok Json.null => pure none
+    | .ok fj => pure (some (← parseFExpr fj))
+    | .error _ => pure none
+  let ocfg : OpsCfg := { freeSurvivesAdd := match cfgj.getObjVal? "free_add" with
+    | .ok (Json.bool b) => b
+    | _ => true }
+  let e ← match fx with
+    | some f => pure f.erase
+    | none => parseExpr (← j.getObjVal? "expr")
+  let shape := [
+    ("in_order", Json.bool (inOrder e)),
+    ("normal_leaves", Json.arr ((normalize e).leaves.map jsonOfNat).toArray),
+    ("leaves", Json.arr (e.leaves.map jsonOfNat).toArray)]
+  let built : Except String (BuiltF Nat) ← match fx with
+    | some f => pure (buildF ocfg (freeIds t) f)
+    | none => match j.getObjVal? "free" with
+      | .ok Json.null => pure (.ok { b := build e })
+      | .ok fj => do
+          let args ← (← fj.getArr?).toList.mapM parseFreeArg
+          pure (.ok { b := build e, free := some (freeIds t args) })
+      | .error _ => pure (.ok { b := build e })
+  let declared : Json := match fx with
+    | some f => match declaredFree (freeIds t) f with
+      | some F => Json.arr (F.map jsonOfNat).toArray
+      | none => Json.null
+    | none => Json.null
+  match built with
+  | .error msg =>
+    return Json.mkObj (shape ++ [("build_error", Json.str msg), ("declared", declared),
+      ("well_formed", Json.bool ((fx.map (·.wellFormed)).getD true))])
+  | .ok bf =>
   let look (k : Nat) : Analysis Float := table.getD k default
-  let order := flatten e
+  let order := bf.b.toList
   let as := order.map look
   let ownOf (k : Nat) : Bool := (look k).own.isSome
   let inf := info cfg ownOf e
-  let (withFree, F) ← match j.getObjVal? "free" with
-    | .ok Json.null => pure (false, [])
-    | .ok fj => do
-        let args ← (← fj.getArr?).toList.mapM parseFreeArg
-        pure (true, freeIds t args)
-    | .error _ => pure (false, [])
+  let (withFree, F) := match bf.free with
+    | some F => (true, F)
+    | none => (false, [])
   let base ← getNat j "base"
   let mode := modeOf inf.indexed withFree
   let fitted := fittedModel t as mode F base
@@ -97,9 +168,10 @@ def handleC15 (j : Json) : Except String Json := do
     | _ => (List.range as.length).map (fun k => subInstance h.1 k))
   let slices := partition cores order
   let modeStr := match mode with | .plain => "plain" | .own => "own" | .free => "free"
-  pure (Json.mkObj [
+  pure (Json.mkObj (shape ++ [
     ("order", Json.arr (order.map jsonOfNat).toArray),
-    ("leaves", Json.arr (e.leaves.map jsonOfNat).toArray),
+    ("declared", declared),
+    ("well_formed", Json.bool ((fx.map (·.wellFormed)).getD true)),
     ("mode", modeStr),
     ("free_ids", Json.arr (F.map jsonOfNat).toArray),
     ("count", jsonOfNat (count fitted)),
@@ -110,6 +182,6 @@ def handleC15 (j : Json) : Except String Json := do
     ("per", Json.arr (per.map (fun rs => Json.arr (rs.map jsonOfRes).toArray)).toArray),
     ("subs", Json.arr (subs.map (fun is => Json.arr (is.map jsonOfInst).toArray)).toArray),
     ("folders_serial", Json.arr ((serialFolders order.length).map jsonOfNat).toArray),
-    ("folders_map", Json.arr ((mapFolders cfg (slices.map List.length)).map jsonOfNat).toArray)])
+    ("folders_map", Json.arr ((mapFolders cfg (slices.map List.length)).map jsonOfNat).toArray)]))
 
 end AF.Driver
